@@ -23,10 +23,10 @@ def main():
         nB = len(hs) - nP
         has_v = any(u["engine"] == "verus" for u in P["units"])
         level = P.get("level", "model_checking")
-        if level == "proof" and nB:
-            level = "model_checking"
         text = P.get("level_text") or (
-            ("Deductive, per-function: " if level == "proof" else "Contract obligations on the real code, partly bounded: ")
+            ("Deductive, per-function contracts proved for all inputs"
+             + (f" (plus {nB} labelled bounded stand-ins that are not counted as proved): " if nB else ": ")
+             if level == "proof" else "Contract obligations on the real code, partly bounded: ")
             + "; ".join(P.get("clauses", []))[:1500])
         note = P.get("level_note") or (
             "Trusted: Kani 0.68/CBMC 6.11/CaDiCaL" + (", Verus+Z3" if has_v else "") + "; "
